@@ -756,6 +756,12 @@ TYPED = [
     ]),
     ("LeafSignal.v", "iv_signal.c", [
         ("signal_compare", "iv_signal_compare", ("fn",), {"#opaque_init": ["a", "b"]}),
+        # round 9: the fan-out walk of __iv_signal_do_wake
+        ("signal_wake_more", "__iv_signal_do_wake", ("cond", "while", 0), {}),
+        ("signal_wake_other", "__iv_signal_do_wake", ("cond", "if", 0), {"#opaque_init": ["is"]}),
+        ("signal_wake_active", "__iv_signal_do_wake", ("stmt", "is->active", 0), {"#opaque_init": ["is"]}),
+        ("signal_wake_count", "__iv_signal_do_wake", ("stmt", "woken", 1), {}),
+        ("signal_wake_excl", "__iv_signal_do_wake", ("cond", "if", 1), {"#opaque_init": ["is"]}),
     ]),
     ("LeafWait.v", "iv_wait.c", [
         ("wait_interest_compare", "iv_wait_interest_compare", ("fn",), {"#opaque_init": ["a", "b"]}),
